@@ -16,7 +16,7 @@ def run(chk, args):
               allow_reset=True, tight=False, edges=True, invariants=["EdgesShrink"])
     if not q:
         mc_bounds(chk, "SA4", N=4, cls="SA", sing="zero", slacks="0to1", computers={"sac"}, reps={0}, maxchg=1,
-                  allow_reset=False, tight=False, edges=True, invariants=["EdgesShrink"], timeout=3400)
+                  allow_reset=False, tight=False, edges=True, invariants=["EdgesShrink"], timeout=5400)
     validate_bounds_traces(chk, [
         {"family": "paths_sa", "ns": "3,4,5" if q else "3,4,5,6", "count": 25 if q else 150, "length": 10, "gaps": 1},
         {"family": "paths_sam", "ns": "3,4", "count": 15 if q else 100, "length": 10, "gaps": 1, "reps": "0,1,3"},
